@@ -204,7 +204,9 @@ def gen_path(rng, tier):
         src = dst = None
     return {'kind': 'path', 'net': net, 'src': src, 'dst': dst, 'pick': [rng.random(), rng.random()],
             'nch': rng.choice([2, 4, 8, 14 if tier == 'quick' else 40]), 'cseed': rng.getrandbits(32),
-            'edge': [rng.choice(['in', 'out', 'none']) for _ in range(8)], 'shuffle_seed': rng.getrandbits(32)}
+            'edge': [rng.choice(['in', 'out', 'none']) for _ in range(8)], 'shuffle_seed': rng.getrandbits(32),
+            'uniform': ([rng.choice([8, 12, 16]) * G, rng.choice([0, G, 3 * G, 4 * G]), rng.randint(0, 3), rng.randint(0, 3)]
+                        if rng.random() < 0.15 else None)}
 
 
 def gen_call(rng, tier):
@@ -577,8 +579,24 @@ def run_path(case, drv):
     res = Result()
     eq, net, src, dst = _net_of(case)
     path, req = S.path_request(eq, net, src, dst)
-    car, cr = _path_carriers(case, path, eq)
-    path, req = _req_with(eq, net, src, dst, car)
+    uniform = case.get('uniform')
+    if uniform:
+        # a uniform grid request (no initial_spectrum) reaching beyond both ends of the common range
+        from gnpy.topology.request import find_elements_common_range
+        cr = [(int(b['f_min']), int(b['f_max'])) for b in find_elements_common_range(path, eq)]
+        sp_, off, k0, k1 = uniform
+        lo, hi = (cr[0][0], cr[-1][1]) if cr else (191_300_000_000_000, 192_000_000_000_000)
+        fmin, fmax = lo - k0 * sp_ - off, hi + k1 * sp_ + off
+        baud = 32_000_000_000
+        path, req = S.path_request(eq, net, src, dst, None, f_min=float(fmin), f_max=float(fmax), spacing=float(sp_),
+                                   baud_rate=float(baud))
+        car = [{'f': fmin + i * sp_, 'slot': sp_, 'baud': baud, 'roll_off': req.roll_off, 'tx_osnr': req.tx_osnr,
+                'tx_power': req.tx_power, 'delta_pdb': 0.0, 'label': f'{baud * 1e-9:.2f}G'}
+               for i in range(1, (fmax - fmin) // sp_ + 1)]
+    else:
+        car, cr = _path_carriers(case, path, eq)
+        path, req = _req_with(eq, net, src, dst, car)
+    fidx = {int(c['f']): i for i, c in enumerate(car)}
     abands = _amp_bands(path)
     sid = eq['SI']['default']
     margs = dict(path=[_elem_json(ab) for ab in abands], fmin=int(sid.f_min), fmax=int(sid.f_max), spacing=int(sid.spacing),
@@ -620,7 +638,7 @@ def run_path(case, drv):
             res.cmp_exact(f'{call.kind}.__call__.channels', {'ok': a},
                           (lambda m: {'ok': _model_ident(m, car)} if 'ok' in m else m)(
                               drv.ask('c07.call', elem=_elem_json(abands[ci]) if ci < len(abands) else {'k': 'other'},
-                                      sp=[[r[0], r[2], r[1], int(r[3][2:])] for r in b])), uid=call.uid)
+                                      sp=[[r[0], r[2], r[1], fidx[r[0]]] for r in b])), uid=call.uid)
             if a != b:
                 lost = sorted(set(r[0] for r in b) - set(r[0] for r in a))
                 res.fail(f'element-changed-channels: {call.kind} {call.uid!r} (element {ci}) received {len(b)} channels and '
@@ -631,15 +649,19 @@ def run_path(case, drv):
             res.fail(f'receiver: {len(impl["ok"])} channels reach the receiver, {len(exp)} were left after the filter (or order / '
                      'records differ)')
         # the same channels launched in another order: identical per-channel results
+        rx_first = [np.array(getattr(path[-1], nm), dtype=float) for nm in ('snr', 'osnr_ase', 'osnr_nli', 'snr_01nm')]
         car2 = list(car)
         _random.Random(case['shuffle_seed']).shuffle(car2)
-        path2, req2 = _req_with(eq, net, src, dst, car2)
+        if uniform:
+            path2, req2 = path, req      # nothing to permute in a grid request: the run must at least be repeatable
+        else:
+            path2, req2 = _req_with(eq, net, src, dst, car2)
         si2 = propagate(path2, req2, eq)
         same = _ident(S.snapshot(si2)) == impl['ok']
         for nm in ('_pch', '_signal_ratio', '_ase_ratio', '_nli_ratio', '_chromatic_dispersion', '_pmd', '_pdl', '_latency'):
             same = same and np.array_equal(getattr(si, nm), getattr(si2, nm))
-        rx1, rx2 = path[-1], path2[-1]
-        same = same and np.array_equal(rx1.snr, rx2.snr)
+        for nm, first_val in zip(('snr', 'osnr_ase', 'osnr_nli', 'snr_01nm'), rx_first):
+            same = same and np.array_equal(first_val, np.array(getattr(path2[-1], nm), dtype=float), equal_nan=True)
         if not same:
             res.fail('order-dependence: launching the same channels in a different order changes the per-channel results at '
                      'the receiver')
@@ -649,7 +671,8 @@ def run_path(case, drv):
                       'path_channels_kept': len(keep), 'path_multiband_amps': kinds.count('multiband'),
                       'path_single_amps': kinds.count('edfa'), 'path_mixed': int('multiband' in kinds and 'edfa' in kinds),
                       'path_common_bands_' + str(len(cr)): 1, 'path_error_' + str(impl.get('err')): 1,
-                      f'net_{case["net"] if isinstance(case["net"], str) else "chain"}': 1})
+                      f'net_{case["net"] if isinstance(case["net"], str) else "chain"}': 1,
+                      'path_uniform_grid': int(bool(uniform))})
     return res
 
 
